@@ -251,3 +251,25 @@ META["C12"] = {
     "LEVEL_NOTE": "Trusted: sim/embed.py, mpmath Cholesky; end-of-run check (stated as such in DESIGN.md).",
     "TECHNIQUE": "deterministic simulation (history-shaped posteriors from seeded accept/reject/checkpoint schedules) with an end-of-run joint-Gaussian oracle",
 }
+
+META["C07"] = {
+    "LEVEL": "exploration",
+    "TIERS": {"quick": 96, "thorough": 5000},
+    "WALLCAP": {"quick": 420, "thorough": 5400},
+    "RULE": ("One evaluation = one seeded natural adaptive run (problem, configuration, estimator kind / norm / re-linearisation / "
+             "per-unit-step / derivative index, tolerances atol != rtol, checkpoints, injected spurious rejections and proposal "
+             "jitter); at every attempt (<= 40 per run) the reference recomputes the documented acceptance quantity from the "
+             "previous mean only and compares (1e-8 + 1e3*eps*kappa); the vector-field call log is checked per attempt; a third "
+             "of the exact-init runs is re-run with a rescaled prior. Distinct = distinct (cell, history digest); non-trivial = "
+             ">= 3 attempts."),
+    "COMPONENTS": {"real": ["error_residual_std", "error_state_std", "error_norm_scale_then_rms / rms_then_scale", "real solver, loop, controllers"],
+                   "stub": [], "seam": ["recording/faulting proxies around estimator and controller", "user vector field call log",
+                                        "probdiffeq.backend.flow (Python-stepped)"]},
+    "PROBES": ["twin_rescaled"],
+    "ASSUMPTIONS": ["partial: decided on the (previous, proposed) pairs reachable by the simulated runs, not on the whole input "
+                    "space of the quantifier", "reference = sim/refmodel.py one-step quantities from the previous mean with zero covariance"],
+    "LEVEL_TEXT": "In-run invariant monitor over seeded adaptive runs with fault injection: the number compared with one is "
+                  "recomputed at every attempt by an independent 50-digit model. Partial (reachable states only).",
+    "LEVEL_NOTE": "Trusted: sim/refmodel.py; kappa-aware tolerance; ill-conditioned attempts are skipped and counted.",
+    "TECHNIQUE": "deterministic simulation: in-run invariant monitor on every attempt of seeded adaptive runs with injected rejections/jitter, reference-model oracle",
+}
